@@ -111,8 +111,15 @@ def run(tier):
     vlib.log("[C01] %d programs: %s" % (total, json.dumps(counts)))
     if unmod > 0.05 * total:
         raise vlib.Infra("out-of-model rate %.1f%% exceeds 5%%" % (100.0 * unmod / total))
+    # Frames stage 2: the VM's per-instruction footprint on the executing activation's locals
+    step_cov = {}
+    lsem.foot_pass(PROP, progs, verd, stats, step_cov)
+    mc = vlib.run_tlc("FramesStepMC", "FramesStepMC", consts=None, workers=4)
+    stats["states"] += mc.distinct
+    stats["transitions"] += mc.generated
     rc = verd.finish()
     vlib.write_evidence(PROP, tier, "model_checking", {
+        "frames_step": step_cov.get("frames_step"),
         "states": stats["states"], "transitions": stats["transitions"],
         "traces_validated_against_impl": total - unmod,
         "programs": total, "evaluations": total, "distinct_nontrivial": len(nontrivial),
@@ -128,6 +135,8 @@ def run(tier):
 
 def replay(path):
     rec = json.load(open(path))
+    if rec["replay"].get("foot"):
+        return lsem.replay_foot(PROP, rec)
     p = rec["replay"]["program"]
     verd = vlib.Verdicts(PROP)
     verd.findings = []
